@@ -448,6 +448,10 @@ func (h *history) snapshot(ctx context.Context, withRand bool) {
 			h.fail("C19-http-unexpected-status", fmt.Sprintf("status %d", code), path)
 		}
 		h.add(fmt.Sprintf("RHttp %s %s %s", h.prefix(), coqPath, obs), "GET "+path)
+		// M: the hash-less paths serve the default chain as long as it runs
+		if s == "" && h.running["default"] && h.hasGroup["default"] && code != http.StatusOK {
+			h.fail("C19-http-default-chain-not-served", "the default chain is running but the path without chain hash is not served", path)
+		}
 		// M: running chains with a group are reachable under their hash
 		for _, x := range h.ids {
 			if h.running[x] && h.hasGroup[x] && s == hex.EncodeToString(h.chains[x].hash) && code != http.StatusOK {
@@ -749,6 +753,13 @@ func newHistory(ctx context.Context, idx int, seed int64) (*history, error) {
 		if idx == 0 {
 			c.onDisk = 2 // the first history always starts with all three chains complete
 		}
+		if idx == 1 {
+			// corpus history: a running default chain next to beacons that only have a key pair (no DKG yet)
+			c.onDisk = 1
+			if id == "default" {
+				c.onDisk = 2
+			}
+		}
 		h.chains[id] = c
 		if c.onDisk >= 1 {
 			st := key.NewFileStore(cfg.ConfigFolderMB(), id)
@@ -782,6 +793,15 @@ func (h *history) run(ctx context.Context, nEvents int) {
 	h.sweep(ctx, false)
 	for i := 0; i < nEvents && !h.stopped; i++ {
 		e := h.genEvent(i == 0, i == nEvents-1)
+		if h.idx == 1 {
+			// scripted: group-less beacons are stopped, loaded again and complete their DKG next to the running default chain
+			script := []evT{{kind: "startup"}, {kind: "shutdown", meta: &drand.Metadata{BeaconID: "beta"}},
+				{kind: "load", meta: &drand.Metadata{BeaconID: "beta"}}, {kind: "shutdown", meta: &drand.Metadata{BeaconID: "alpha"}},
+				{kind: "dkg", id: "beta"}, {kind: "shutdown", meta: &drand.Metadata{BeaconID: "beta"}}}
+			if i < len(script) {
+				e = script[i]
+			}
+		}
 		h.apply(ctx, e)
 		last := i == nEvents-1 || h.stopped
 		if last && !h.stopped {
